@@ -152,9 +152,8 @@ def deps_of(vfile):
             continue
         seen.add(f)
         txt = open(os.path.join(COQ, f)).read()
-        for m in re.finditer(r"From\s+IpfsLog\s+Require\s+(?:Import|Export)\s+([^.]*(?:\.[A-Za-z_][^.\s]*)*)\s*\.", txt):
-            pass
-        for m in re.finditer(r"From\s+IpfsLog\s+Require\s+(?:Import\s+|Export\s+)?((?:[A-Za-z_][\w.]*\s*)+)\.\s", txt):
+        txt_nc = re.sub(r"\(\*.*?\*\)", " ", txt, flags=re.S)
+        for m in re.finditer(r"From\s+IpfsLog\s+Require\s+(?:Import\s+|Export\s+)?((?:[A-Za-z_]\w*(?:\.[A-Za-z_]\w*)*\s*)+)\.(?:\s|$)", txt_nc):
             for mod in m.group(1).split():
                 todo.append(mod.replace(".", "/") + ".v")
     return seen
